@@ -556,6 +556,39 @@ func scenarios() []scenario {
 			return strings.Join(ids, ","), err
 		}})
 	}
+	// many draws with replacement (n^k far beyond 2^63): every slot, the late ones included, holds
+	// each tree with probability 1/n
+	for _, nk := range [][2]int{{10, 30}, {4, 40}} {
+		n, k := nk[0], nk[1]
+		input := numberedTrees(n)
+		mc := map[string]float64{}
+		slots := []int{0, k / 3, k/2 + 4, k - 2, k - 1}
+		for _, j := range slots {
+			for i := 0; i < n; i++ {
+				mc[fmt.Sprintf("slot %d holds tree %d", j, i)] = 1 / float64(n)
+			}
+		}
+		out = append(out, scenario{name: fmt.Sprintf("gotree sample --replace -n %d on %d trees (slot marginals)", k, n), cli: true, mcells: mc, margin: func(o string) []string {
+			ids := strings.Split(o, ",")
+			var ev []string
+			for _, j := range slots {
+				if j < len(ids) {
+					ev = append(ev, fmt.Sprintf("slot %d holds tree %s", j, ids[j]))
+				}
+			}
+			return ev
+		}, run: func(seed int64) (string, error) {
+			r := cli.Run(cli.Scratch(), input, "sample", "--replace", "-n", strconv.Itoa(k), "--seed", strconv.FormatInt(seed, 10))
+			if r.Code != 0 {
+				return "", fmt.Errorf("exit %d: %s", r.Code, r.Stderr)
+			}
+			ids, err := treeIDs(r.Stdout)
+			if err == nil && len(ids) != k {
+				err = fmt.Errorf("%d trees sampled, %d requested", len(ids), k)
+			}
+			return strings.Join(ids, ","), err
+		}})
+	}
 	for _, nk := range [][3]int{{4, 1, 0}, {5, 2, 0}, {6, 3, 0}, {5, 3, 1}, {6, 4, 1}} {
 		n, k, rev := nk[0], nk[1], nk[2] == 1
 		var names []string
@@ -847,7 +880,7 @@ func scenarios() []scenario {
 }
 
 func TestC20Sweeps(t *testing.T) {
-	r := h.NewRecorder(t, "C20", "sweeps", "seed sweeps: for each scenario (ShuffleTips n=3,4, also on trees indexed and then grafted / pruned in memory; RotateNeighbors degree 3,4; RandomUniformBinaryTree unrooted n=4,5,6 and rooted n=3,4,5; `gotree sample -n k` for (n,k) in {(2,1),(3,1),(4,2),(5,2),(6,3),(5,5),(4,6)}; `sample --replace` (2,3),(3,2),(4,1),(11,1),(15,1); `sample -n 1` from a two-member gzip file; `prune -r --random 4` on a stream of trees with 6, 3 and 6 tips; `prune --random k` remove/keep; `shuffletips`; `generate uniformtree`) the outcome is recorded for N consecutive seeds (library: rand.Seed(s); commands: --seed s; N = 40000/600 quick, 400000/6000 thorough) and every outcome cell and every 'element i selected' event is tested against its exact probability with an exact two-sided binomial test (per-cell level 1e-13, run-level false alarm probability < 1e-9), plus the support check (every possible outcome occurs; unexpected outcomes are violations). Evaluations = seeds drawn; non-trivial = seeds of scenarios with n > k >= 1 and >= 3 outcome cells")
+	r := h.NewRecorder(t, "C20", "sweeps", "seed sweeps: for each scenario (ShuffleTips n=3,4, also on trees indexed and then grafted / pruned in memory; RotateNeighbors degree 3,4; RandomUniformBinaryTree unrooted n=4,5,6 and rooted n=3,4,5; `gotree sample -n k` for (n,k) in {(2,1),(3,1),(4,2),(5,2),(6,3),(5,5),(4,6)}; `sample --replace` (2,3),(3,2),(4,1),(11,1),(15,1), and per-slot marginals for 30 draws from 10 trees and 40 draws from 4; `sample -n 1` from a two-member gzip file; `prune -r --random 4` on a stream of trees with 6, 3 and 6 tips; `prune --random k` remove/keep; `shuffletips`; `generate uniformtree`) the outcome is recorded for N consecutive seeds (library: rand.Seed(s); commands: --seed s; N = 40000/600 quick, 400000/6000 thorough) and every outcome cell and every 'element i selected' event is tested against its exact probability with an exact two-sided binomial test (per-cell level 1e-13, run-level false alarm probability < 1e-9), plus the support check (every possible outcome occurs; unexpected outcomes are violations). Evaluations = seeds drawn; non-trivial = seeds of scenarios with n > k >= 1 and >= 3 outcome cells")
 	scs := scenarios()
 	var rc Case
 	if replaying, mine := r.ReplayCase(&rc); replaying {
